@@ -2702,10 +2702,16 @@ class MSDDLCompiler(compiler.DDLCompiler):
 
         # handle other included columns
         if index.dialect_options["mssql"]["include"]:
-            inclusions = [
-                index.table.c[col] if isinstance(col, str) else col
-                for col in index.dialect_options["mssql"]["include"]
-            ]
+            try:
+                inclusions = [
+                    index.table.c[col] if isinstance(col, str) else col
+                    for col in index.dialect_options["mssql"]["include"]
+                ]
+            except KeyError as err:
+                raise exc.CompileError(
+                    "mssql_include column %s is not a column of table '%s'"
+                    % (err, index.table.name)
+                ) from err
 
             text += " INCLUDE (%s)" % ", ".join(
                 [preparer.quote(c.name) for c in inclusions]
